@@ -256,16 +256,23 @@ Fixpoint dep_loop (cs : composition) (rec : nat -> Z -> ures) (fin : unit -> ure
         end
   end.
 
+(** the key under which a component is entered into [chain]: a time component by itself, a component
+    without time step together with the time it is asked for *)
+Definition chain_key (cs : composition) (c : nat) (target : Z) : nat * Z :=
+  (c, if is_time cs c then 0 else target).
+
+Definition key_eqb (a b : nat * Z) : bool := Nat.eqb (fst a) (fst b) && (snd a =? snd b).
+
 Fixpoint update_rec (fuel : nat) (cs : composition) (st : state) (acc : list ev)
-  (c : nat) (chain : list nat) (target : Z) : ures :=
+  (c : nat) (chain : list (nat * Z)) (target : Z) : ures :=
   match fuel with
   | O => UFuel
   | S fuel' =>
-      if existsb (Nat.eqb c) chain then UCirc
+      if existsb (key_eqb (chain_key cs c target)) chain then UCirc
       else
         let target' := if is_time cs c then next_time cs st c else target in
         dep_loop cs
-          (fun c' t' => update_rec fuel' cs st acc c' (c :: chain) t')
+          (fun c' t' => update_rec fuel' cs st acc c' (chain_key cs c target :: chain) t')
           (fun _ => if is_time cs c then
                       let '(st', acc', e) := do_update cs st c acc in UUpdated c st' acc' e
                     else UNone)
@@ -299,6 +306,10 @@ Fixpoint any_running (st : state) (k : nat) (l : composition) (endt : Z) : bool 
       || any_running st (S k) r endt
   end.
 
+(** recursion depth of [_update_recursive]: every time component at most once, components without time step
+    possibly several times (for different times) in between *)
+Definition rec_fuel (cs : composition) : nat := (S (length cs) * S (length cs))%nat.
+
 Inductive outcome : Type := OOk | OCirc | OTime | ONoData | OFuel.
 
 Fixpoint run_loop (fuel : nat) (cs : composition) (endt : Z) (st : state) (acc : list ev)
@@ -309,7 +320,7 @@ Fixpoint run_loop (fuel : nat) (cs : composition) (endt : Z) (st : state) (acc :
       match pick_min cs st O cs None with
       | None => (OOk, st, acc)
       | Some c =>
-          match update_rec (S (length cs)) cs st acc c [] 0 with
+          match update_rec (rec_fuel cs) cs st acc c [] 0 with
           | UUpdated _ st' acc' None =>
               if any_running st' O cs endt then run_loop fuel' cs endt st' acc' else (OOk, st', acc')
           | UUpdated _ st' acc' (Some ETime) => (OTime, st', acc')
